@@ -4,7 +4,7 @@
   in commit order, and every committed transaction ran on exactly the log produced by its
   predecessors.  (Per-sub-machine lemmas generated mechanically.)
 -/
-import Lungo.Proofs.ConcAll
+import Lungo.Proofs.ConcOwnDefs
 namespace Lungo.Conc
 
 /-- the log produced by a list of committed transactions -/
@@ -316,24 +316,5 @@ theorem linv_exp {s s' : State} {a : ActorId} {c : Choice} (inv1 : Inv1 s) (bnd 
       (try log_simp); grind
     · clear l2 i2 b2
       (try log_simp); grind)
-
-theorem linv_step {s s' : State} {a : ActorId} {c : Choice} (h1 : Inv1 s) (h2 : Inv2 s) (g : Linv s)
-    (hs : step s a c = some s') : Linv s' := by
-  have bd := h2.bnd
-  rcases step_cases hs with ⟨hp, h'⟩ | h' | h' | h' | ⟨hp, h'⟩ | h' | h' | h' | h'
-  · exact linv_idle h1 bd g hp h'
-  · exact linv_begin h1 bd g h'
-  · exact linv_commit h1 bd g h'
-  · exact linv_abort h1 bd g h'
-  · exact linv_after h1 bd g hp h'
-  · exact linv_use h1 bd g h'
-  · exact linv_sess h1 bd g h'
-  · exact linv_close h1 bd g h'
-  · exact linv_exp h1 bd g h'
-
-theorem linv_reachable {n : Nat} {s : State} (h : Reachable n s) : Linv s := by
-  induction h with
-  | init => exact linv_init n
-  | step hr hs ih => exact linv_step (inv_reachable hr).1 (inv_reachable hr).2 ih hs
 
 end Lungo.Conc
